@@ -124,7 +124,10 @@ Proof. exact simpson_branches. Qed.
    universally quantified theorem about the drivers of Model/Producer.v over the custom producers, rayon's Vec producer and rayon's
    range producer, for EVERY admissible split tree — holds.  Sites using par_bridge, for_each, reduce, fold, rayon::join/scope/spawn
    or any other entry / adaptor / terminal do not classify, and this theorem fails.  (The link descriptor -> rayon adaptor semantics
-   is the hand model of Map / Enumerate / Collect / Sum.) *)
+   is the hand model of Map / Enumerate / Collect / Sum.)
+   What this adds: every shape's statement is proved once and for all (every_shape_holds), so the content that depends on the SOURCE is
+   exactly "the census is closed under the proved shapes" — classify is total on the generated list; a site outside the ten proved
+   shapes makes the theorem fail.  It does not prove that a descriptor describes its call site faithfully (generator, trusted). *)
 Theorem C15_par_sites_sound : Forall (fun s => exists sh, classify s = Some sh /\ shape_holds sh) par_sites.
 Proof. exact par_sites_sound. Qed.
 
